@@ -130,7 +130,7 @@ class MemoryTimeline(MutableTimeline[Interval]):
             return heapq.merge(
                 *iterators, key=lambda x: (-x.finite_start, -x.finite_end)
             )
-        return heapq.merge(*iterators, key=lambda x: x.finite_start)
+        return heapq.merge(*iterators, key=lambda x: (x.finite_start, x.finite_end))
 
     def _fetch_static(
         self, start: int | None, end: int | None, reverse: bool = False
